@@ -35,7 +35,8 @@ CONFIG = {
     'deciding': ['c03.modelcheck'],
     'shards': {'quick': 16, 'thorough': 16},
     'hashseeds': {'quick': 4, 'thorough': 8},
-    'min_evals': {'quick': {'c03.modelcheck': 15000, 'c03.fresh_atom': 10000},
+    'min_evals': {'quick': {'c03.modelcheck': 15000, 'c03.fresh_atom': 10000,
+                            'c03.certificate': 3000},
                   'thorough': {'c03.modelcheck': 300000}},
     'must_sig': ['reach:_checkQuantifiedFormula:return LTL.modelcheck(kripke, formula)',
                  'reach:_checkQuantifiedFormula:formula = LNot(A(LNot(formula.subformula(0))))',
@@ -76,6 +77,12 @@ def judge(c):
         LOG.skipped['c03.reference_cap'] += 1
         return
     LOG.hit('c03.modelcheck', c.site)
+    if t[0] in ('A', 'E') and c.seq % 3 == 0:
+        # keep the oracle honest: lasso certificates from an independent
+        # path evaluator for the top-level quantifier
+        n = refsem.certify_top(S, t)
+        for _ in range(n):
+            LOG.hit('c03.certificate')
     if reflang.checkable(t, 'CTL'):
         LOG.sig['shape:ctl'] += 1
         LOG.counters['self_check.cases'] += 1
